@@ -184,8 +184,12 @@ class _V:
         run.counts[cid] = n + 1
         run.event((role, cid, self._recv(run, kw)))
         self._hook(run, "cond", cid, kw)
-        seq = run.truth.get(cid) or ["T"]
-        code = seq[n] if n < len(seq) else seq[-1]
+        tf = run.hooks.get(("truthfn",))
+        if tf is not None:
+            code = tf(run, cid, kw)
+        else:
+            seq = run.truth.get(cid) or ["T"]
+            code = seq[n] if n < len(seq) else seq[-1]
         val = value_of(code)
         w = run.hooks.get(("wrap", cid))
         if w is not None:
